@@ -159,7 +159,7 @@ def _work(job):
             import engine_k2b
             if engine_k2b.in_scope(cfg):
                 k2 = engine_k2b.check_trace(tr, _DRV, max_frames=getattr(prop, 'k2_frames', 60) * job.get('k2x', 1), mask=(getattr(prop, 'k2_mask2', None) or prop.k2_mask) or None, inv_mask=getattr(prop, 'k2_invs2', set()))
-                res['k2b'] = {'frames': k2['frames'], 'other': k2['other'], 'inv_frames': k2.get('inv_frames', 0), 'inv_other': k2.get('inv_other', 0)}
+                res['k2b'] = {'frames': k2['frames'], 'other': k2['other'], 'inv_frames': k2.get('inv_frames', 0), 'inv_other': k2.get('inv_other', 0), 'jrn_frames': k2.get('jrn_frames', 0)}
                 if k2['mismatch'] and 'soft' not in res:
                     res['soft'] = {'clause': 900, 'frame': k2['mismatch'].get('frame'), 'k2': k2['mismatch'], 'stage': 2}
     # a property's own additional correspondence between a Coq definition and the real engine's states (soft clause 901)
@@ -436,6 +436,8 @@ def run_check(pid, tier, seed, replay=None):
             k2tot['stage2_frames'] = k2tot.get('stage2_frames', 0) + r['k2b']['frames']
             k2tot['stage2_other_slices_diverged'] = k2tot.get('stage2_other_slices_diverged', 0) + r['k2b']['other']
             k2tot['stage2_real_snapshots_satisfying_the_T2_invariants'] = k2tot.get('stage2_real_snapshots_satisfying_the_T2_invariants', 0) + r['k2b'].get('inv_frames', 0)
+            if r['k2b'].get('jrn_frames'):
+                k2tot['stage2_real_snapshots_with_real_history_satisfying_the_journey_invariant'] = k2tot.get('stage2_real_snapshots_with_real_history_satisfying_the_journey_invariant', 0) + r['k2b']['jrn_frames']
             k2tot['stage2_snapshots_failing_an_invariant_of_another_property'] = k2tot.get('stage2_snapshots_failing_an_invariant_of_another_property', 0) + r['k2b'].get('inv_other', 0)
         if r.get('k2'):
             k2tot['runs'] += 1
